@@ -112,8 +112,11 @@ PAYLOADS = {
     "P1f": ("x", "y", "z"),
     "P3f": ("p",),
     "P3s": ("p",),
+    # payloads whose values need their own imports (List / Dict / Optional-free Any)
+    "P3l": ("p",),
+    "P4d": ("q",),
 }
-PAYLOAD_VALUE = {"P1f": 1.5, "P3f": 1.5, "P3s": "s"}
+PAYLOAD_VALUE = {"P1f": 1.5, "P3f": 1.5, "P3s": "s", "P3l": [1], "P4d": {"k1": 1}}
 EDGE_KEYS = ("c", "d")
 WRAPPERS = ("plain", "list", "nullable", "dict")
 
@@ -121,7 +124,7 @@ WRAPPERS = ("plain", "list", "nullable", "dict")
 def graph_object(spec):
     """spec: [payload, [[edge_key, wrapper, childspec], ...]] -> JSON object"""
     payload, edges = spec
-    o = {k: PAYLOAD_VALUE.get(payload, 1) for k in PAYLOADS[payload]}
+    o = {k: copy.deepcopy(PAYLOAD_VALUE.get(payload, 1)) for k in PAYLOADS[payload]}
     for key, wrap, child in edges:
         c = graph_object(child)
         if wrap == "plain":
